@@ -1,17 +1,32 @@
 """C02 — Dictionary records map onto rows by field name.
 
-Row(dict), DataFrame(dicts) and append(dict) are run on orso and on Model/DictRow.lean;
-the oracle is the field-to-value association evaluated directly on the implementation's rows.
+Row(dict), DataFrame(dicts) and append(dict) are run on orso and on the Lean model (Model/DictRow*.lean,
+Model/DictSession.lean); the oracle is the field-to-value association evaluated directly on the
+implementation's rows.
+
+Round 2: every case runs in ONE interpreter, interleaved with the other features that create row classes
+(from_arrow, tuples-only classes, schema-bound classes, frames from rows, slices, byte round trips), and
+*sessions* keep several frames alive and append / re-read / derive in any order.  A failure is confirmed
+and reduced in a pristine forked interpreter (harness/c02_worker.py); when it only happens after earlier
+operations, the replay is the reduced *sequence* of operations, so it fails in a new process too.
 """
+import collections
 import itertools
 import json
 import math
+import os
+import select
+import subprocess
+import sys
+import time
+import warnings
 
-from .. import wire
+from .. import core, wire
 from ..core import InfraError, shrink
 from ..gen import gen_pyval, gen_text
 
-NAMES = ["a", "b", "c", "d", "id", "Name", "é", "", "a b", "x|y", "日本", "A"]
+NAMES = ["a", "b", "c", "d", "id", "Name", "é", "", "a b", "x|y", "日本", "A", "as_map", "_fields", "get", "keys"]
+SMALL = NAMES[:4]
 
 
 def json_native(v):
@@ -39,34 +54,118 @@ def canon(v):
     return v
 
 
-# ----------------------------------------------------------------------------- implementation
+def mapping(d, how):
+    """The dictionary as the caller holds it: a plain dict or one of the standard dict subclasses."""
+    if how == "ordered":
+        return collections.OrderedDict(d)
+    if how == "default":
+        return collections.defaultdict(list, d)
+    return dict(d)
+
+
+def raised(e):
+    return {"__raised__": type(e).__name__}
+
+
+def is_raised(x):
+    return isinstance(x, dict) and "__raised__" in x
+
+
+# ----------------------------------------------------------------------------- implementation: one row
+
+
+def views_of(row, probes, default):
+    """Every view the property names, read twice (a view must not change by having been read)."""
+    out = {}
+
+    def read():
+        o = {"row": canon(tuple(row))}
+        o["as_map"] = [[k, canon(v)] for k, v in row.as_map]
+        o["as_dict"] = [[k, canon(v)] for k, v in row.as_dict.items()]
+        o["values"] = canon(row.values)
+        o["keys"] = list(row.keys())
+        return o
+
+    try:
+        out.update(read())
+    except Exception as e:
+        return {"views_raised": type(e).__name__}
+    out["gets"] = []
+    for p in probes:
+        try:
+            out["gets"].append(canon(row.get(p, default)))
+        except Exception as e:
+            out["gets"].append(raised(e))
+    try:
+        out["get_nodefault"] = [canon(row.get(p)) for p in probes]
+    except Exception as e:
+        out["get_nodefault"] = raised(e)
+    try:
+        out["json"] = json.loads(row.as_json)
+    except Exception as e:
+        if json_native(out["row"]):  # orjson refuses some values (integers beyond 64 bits): not this property's business
+            out["json"] = raised(e)
+    try:
+        again = read()
+        out["stable"] = all(wire.same(out[k], again[k]) for k in again)
+    except Exception as e:
+        out["stable"] = False
+    return out
+
+
+def judge_views(fields, want, out, probes, dflt):
+    """The clauses about one row: positions, width, every view, lookups by name."""
+    if "views_raised" in out:
+        return "a view of the row raised %s" % out["views_raised"]
+    if not wire.same(out["row"], want):
+        return "a field's value is not at that field's position (or absent field not null / extra key not ignored)"
+    if len(out["row"]) != len(fields):
+        return "row is not as wide as the field list"
+    pairs = [[f, v] for f, v in zip(fields, want)]
+    if not wire.same(out["as_map"], pairs):
+        return "as_map does not reproduce the field-to-value association"
+    dd = {}
+    for f, v in zip(fields, want):
+        dd[f] = v
+    if not wire.same(out["as_dict"], [[k, v] for k, v in dd.items()]):
+        return "as_dict does not reproduce the field-to-value association"
+    if not wire.same(out["values"], want) or out["keys"] != list(fields):
+        return "values/keys views differ from the row"
+    for p, g in zip(probes, out["gets"]):
+        if is_raised(g):
+            return "get(%r, default) raised %s" % (p, g["__raised__"])
+        exp = want[fields.index(p)] if p in fields else dflt
+        if not wire.same(g, exp):
+            return "get(name, default) returned neither the field's value nor the default"
+    gn = out["get_nodefault"]
+    if is_raised(gn):
+        return "get(name) raised %s" % gn["__raised__"]
+    for p, g in zip(probes, gn):
+        exp = want[fields.index(p)] if p in fields else None
+        if not wire.same(g, exp):
+            return "get(name) returned neither the field's value nor None"
+    if "json" in out:
+        js = out["json"]
+        if is_raised(js):
+            return "as_json raised %s" % js["__raised__"]
+        # the JSON object has exactly the field names; every cell JSON can carry natively is the field's value
+        # (how a non-JSON value such as bytes is rendered is the serialiser's choice, not part of the association)
+        if not isinstance(js, dict) or set(js) != set(dd) or any(json_native(dd[f]) and not wire.same(js[f], dd[f]) for f in dd):
+            return "as_json does not reproduce the field-to-value association"
+    if not out.get("stable", True):
+        return "a view changed between two reads of the same row"
+    return None
 
 
 def impl_row(case):
     from orso.row import Row
 
-    fields = case["fields"]
-    d = case["dict"]
-    cls = Row.create_class(list(fields))
-    row = cls(dict(d))
-    out = {"row": canon(tuple(row)), "as_map": [[k, canon(v)] for k, v in row.as_map],
-           "as_dict": [[k, canon(v)] for k, v in row.as_dict.items()], "values": canon(row.values),
-           "keys": list(row.keys()), "gets": []}
-    for p in case["probes"]:
-        try:
-            out["gets"].append(canon(row.get(p, case["default"])))
-        except Exception as e:
-            out["gets"].append({"__raised__": type(e).__name__})
     try:
-        out["get_nodefault"] = [canon(row.get(p)) for p in case["probes"]]
+        cls = Row.create_class(list(case["fields"]))
+        row = cls(mapping(case["dict"], case.get("mapping")))
     except Exception as e:
-        out["get_nodefault"] = {"__raised__": type(e).__name__}
-    if json_native(out["row"]):
-        try:
-            out["json"] = json.loads(row.as_json)
-        except Exception as e:
-            out["json"] = {"__raised__": type(e).__name__}
-    return out
+        return {"new_raised": type(e).__name__}
+    return views_of(row, case["probes"], case["default"])
 
 
 _SHADOW = None
@@ -77,7 +176,7 @@ def shadow_extract():
     global _SHADOW
     if _SHADOW is None:
         try:
-            from .. import core, pyxshadow
+            from .. import pyxshadow
 
             funcs, _ = pyxshadow.load(core.REPO)
             _SHADOW = (funcs.get("extract_dict_columns"),)
@@ -97,40 +196,12 @@ def oracle_row(case, out):
             return "the field extractor's source (compiled.pyx, shadow execution) raised %s" % type(e).__name__
         if not wire.same(got, want):
             return "the field extractor's source (compiled.pyx, shadow execution) does not put each field's value at its position"
-    if not wire.same(out["row"], want):
-        return "a field's value is not at that field's position (or absent field not null / extra key not ignored)"
-    if len(out["row"]) != len(fields):
-        return "row is not as wide as the field list"
-    pairs = [[f, v] for f, v in zip(fields, want)]
-    if not wire.same(out["as_map"], pairs):
-        return "as_map does not reproduce the field-to-value association"
-    dd = {}
-    for f, v in zip(fields, want):
-        dd[f] = v
-    if not wire.same(out["as_dict"], [[k, v] for k, v in dd.items()]):
-        return "as_dict does not reproduce the field-to-value association"
-    if not wire.same(out["values"], want) or out["keys"] != list(fields):
-        return "values/keys views differ from the row"
-    for p, g in zip(case["probes"], out["gets"]):
-        if isinstance(g, dict) and "__raised__" in g:
-            return "get(%r, default) raised %s" % (p, g["__raised__"])
-        exp = want[fields.index(p)] if p in fields else dflt
-        if not wire.same(g, exp):
-            return "get(name, default) returned neither the field's value nor the default"
-    gn = out["get_nodefault"]
-    if isinstance(gn, dict):
-        return "get(name) raised %s" % gn["__raised__"]
-    for p, g in zip(case["probes"], gn):
-        exp = want[fields.index(p)] if p in fields else None
-        if not wire.same(g, exp):
-            return "get(name) returned neither the field's value nor None"
-    if "json" in out:
-        if isinstance(out["json"], dict) and "__raised__" in out["json"]:
-            return "as_json raised %s" % out["json"]["__raised__"]
-        if not wire.same(out["json"], dd):
-            # ints and floats: json.loads gives int for ints, float for floats: same as the source
-            return "as_json does not reproduce the field-to-value association"
-    return None
+    if "new_raised" in out:
+        return "building a row from a dictionary raised %s" % out["new_raised"]
+    return judge_views(fields, want, out, case["probes"], dflt)
+
+
+# ----------------------------------------------------------------------------- implementation: frames
 
 
 def impl_frame(case):
@@ -144,11 +215,14 @@ def impl_frame(case):
         return {"raised": "StopIteration"}
     except Exception as e:
         return {"raised": type(e).__name__}
-    out = {"names": list(df.column_names), "rows": [canon(tuple(r)) for r in df], "rowcount": df.rowcount,
-           "shape": list(df.shape)}
+    try:
+        out = {"names": list(df.column_names), "rows": [canon(tuple(r)) for r in df], "rowcount": df.rowcount,
+               "shape": list(df.shape)}
+    except Exception as e:
+        return {"raised": type(e).__name__}
     if case.get("append") is not None:
         try:
-            df.append(dict(case["append"]))
+            df.append(mapping(case["append"], case.get("mapping")))
             out["after_append"] = [canon(tuple(r)) for r in df._rows]
             out["append_as_dict"] = [[k, canon(v)] for k, v in df._rows[-1].as_dict.items()]
         except Exception as e:
@@ -180,43 +254,307 @@ def oracle_frame(case, out):
         want = [[d.get(k, None) for k in names] for d in dicts] + [[a.get(k, None) for k in names]]
         if not wire.same(out["after_append"], want):
             return "append(dict) did not add exactly the record's row"
+        dd = {}
+        for k in names:
+            dd[k] = a.get(k, None)
+        if not wire.same(out["append_as_dict"], [[k, v] for k, v in dd.items()]):
+            return "as_dict does not reproduce the field-to-value association"
     return None
 
 
+def arrow_table(fields, rows):
+    import pyarrow
+
+    cols = [pyarrow.array([r[i] for r in rows], type=pyarrow.int64()) for i in range(len(fields))]
+    return pyarrow.Table.from_arrays(cols, names=list(fields))
+
+
 def impl_append(case):
-    """append(dict) on names-only and schema-bound (untyped, nullable columns) frames created from rows."""
+    """append(dict) on names-only, schema-bound (untyped, nullable columns) and Arrow-derived frames."""
     from orso import DataFrame
     from orso.schema import FlatColumn, RelationSchema
 
     fields = case["fields"]
     rows = [tuple(r) for r in case["rows"]]
-    if case["schema_bound"]:
-        schema = RelationSchema(name="t", columns=[FlatColumn(name=f) for f in fields])
-    else:
-        schema = list(fields)
-    import warnings
-
     with warnings.catch_warnings():
         warnings.simplefilter("ignore")
-        df = DataFrame(rows=list(rows), schema=schema)
         try:
-            df.append(dict(case["dict"]))
+            if case.get("via") == "arrow":
+                df = DataFrame.from_arrow(arrow_table(fields, rows))
+                df.materialize()
+            else:
+                if case["schema_bound"]:
+                    schema = RelationSchema(name="t", columns=[FlatColumn(name=f) for f in fields])
+                else:
+                    schema = list(fields)
+                df = DataFrame(rows=list(rows), schema=schema)
+        except Exception as e:
+            return {"setup_raised": type(e).__name__}
+        try:
+            df.append(mapping(case["dict"], case.get("mapping")))
         except Exception as e:
             return {"raised": type(e).__name__, "rows": [canon(tuple(r)) for r in df._rows]}
-    return {"rows": [canon(tuple(r)) for r in df._rows], "rowcount": df.rowcount}
+        try:
+            return {"rows": [canon(tuple(r)) for r in df._rows], "rowcount": df.rowcount,
+                    "last_as_dict": [[k, canon(v)] for k, v in df._rows[-1].as_dict.items()]}
+        except Exception as e:
+            return {"raised": type(e).__name__, "rows": []}
 
 
 def oracle_append(case, out):
     fields, d = case["fields"], case["dict"]
+    if "setup_raised" in out:
+        return None  # the frame the dictionary would be appended to could not be made: nothing to judge here
     if "raised" in out:
         return "append(dict) raised %s" % out["raised"]
     want = [list(r) for r in case["rows"]] + [[d.get(f, None) for f in fields]]
     if not wire.same(out["rows"], want) or out["rowcount"] != len(want):
         return "append(dict) did not add exactly the record's row"
+    dd = {}
+    for f in fields:
+        dd[f] = d.get(f, None)
+    if not wire.same(out["last_as_dict"], [[k, v] for k, v in dd.items()]):
+        return "as_dict does not reproduce the field-to-value association"
     return None
 
 
+# ----------------------------------------------------------------------------- other features (context)
+
+CTX_KINDS = ("arrow", "tuples", "schema", "rowsframe", "bytes", "dictframe")
+
+
+def impl_ctx(case):
+    """Another feature that creates row classes for these field names.  Nothing here is judged by C02:
+    the operation only has to have happened, in this interpreter, before the next dictionary."""
+    from orso import DataFrame
+    from orso.row import Row
+    from orso.schema import FlatColumn, RelationSchema
+
+    fields = list(case["fields"])
+    vals = tuple(range(len(fields)))
+    what = case["what"]
+    try:
+        with warnings.catch_warnings():
+            warnings.simplefilter("ignore")
+            if what == "arrow":
+                df = DataFrame.from_arrow(arrow_table(fields, [vals, vals]))
+                [tuple(r) for r in df]
+            elif what == "tuples":
+                r = Row.create_class(fields, tuples_only=True)(vals)
+                r.as_dict
+            elif what == "schema":
+                r = Row.create_class(RelationSchema(name="t", columns=[FlatColumn(name=f) for f in fields]))(vals)
+                r.as_map
+            elif what == "rowsframe":
+                df = DataFrame(rows=[vals, vals], schema=fields)
+                df.slice(0, 1)
+                df.query(lambda r: True)
+                [tuple(r) for r in df.select(fields[:1])]
+                [b.rowcount for b in df.to_batches(1)]
+                df.distinct()
+                df.head(1)
+            elif what == "bytes":
+                cls = Row.create_class(fields)
+                cls.from_bytes(cls(vals).as_bytes).as_map
+            elif what == "dictframe":
+                df = DataFrame([dict(zip(fields, vals))])
+                df.append(dict(zip(fields, vals)))
+    except Exception as e:
+        return {"ctx_raised": type(e).__name__}
+    return {}
+
+
+# ----------------------------------------------------------------------------- sessions
+
+
+def impl_session(case):
+    """Several frames alive at once; appends, re-reads, derivations and other features in any order."""
+    from orso import DataFrame
+    from orso.row import Row
+
+    frames, outs = [], []
+    for op in case["ops"]:
+        k = op["op"]
+        o = {}
+        try:
+            with warnings.catch_warnings():
+                warnings.simplefilter("ignore")
+                if k == "ctx":
+                    impl_ctx(op)
+                elif k == "frame":
+                    if not op["dicts"]:
+                        o = {"skip": True}
+                    else:
+                        dicts = [dict(d) for d in op["dicts"]]
+                        df = DataFrame(iter(dicts) if op.get("iterator") else dicts)
+                        frames.append(df)
+                        o = {"names": list(df.column_names), "rows": [canon(tuple(r)) for r in df], "rowcount": df.rowcount}
+                elif k == "rows":
+                    df = DataFrame(rows=[tuple(r) for r in op["rows"]], schema=list(op["fields"]))
+                    frames.append(df)
+                    o = {"names": list(df.column_names), "rows": [canon(tuple(r)) for r in df]}
+                elif k == "append":
+                    if not frames:
+                        o = {"skip": True}
+                    else:
+                        df = frames[op["frame"] % len(frames)]
+                        df.append(mapping(op["dict"], op.get("mapping")))
+                        o = {"rows": [canon(tuple(r)) for r in df._rows], "rowcount": df.rowcount,
+                             "last": views_of(df._rows[-1], op.get("probes", []), op.get("default"))}
+                elif k == "row":
+                    row = Row.create_class(list(op["fields"]))(mapping(op["dict"], op.get("mapping")))
+                    o = views_of(row, op["probes"], op["default"])
+                elif k == "reread":
+                    if not frames:
+                        o = {"skip": True}
+                    else:
+                        df = frames[op["frame"] % len(frames)]
+                        o = {"names": list(df.column_names), "rows": [canon(tuple(r)) for r in df], "rowcount": df.rowcount}
+                elif k == "derive":
+                    if not frames:
+                        o = {"skip": True}
+                    else:
+                        df = frames[op["frame"] % len(frames)]
+                        how = op["how"]
+                        if how == "slice":
+                            nf = df.slice(0, op.get("n"))
+                        elif how == "query":
+                            nf = df.query(lambda r: True)
+                        else:
+                            nf = df + df
+                        frames.append(nf)
+                        o = {"names": list(nf.column_names), "rows": [canon(tuple(r)) for r in nf]}
+        except Exception as e:
+            o = {"op_raised": type(e).__name__}
+        outs.append(o)
+    return {"ops": outs}
+
+
+def session_expected(ops, outs=None):
+    """The frames an exact reading of the property predicts, op by op (the mirror the oracle and the Lean
+    state machine agree on).  A derived frame is whatever the implementation derived (not C02's business)
+    when `outs` is given, the slice/query/concatenation of the mirror otherwise."""
+    frames, exp = [], []
+    for i, op in enumerate(ops):
+        k = op["op"]
+        e = None
+        if k == "frame":
+            if op["dicts"]:
+                names = [str(x) for x in op["dicts"][0]]
+                frames.append({"names": names, "rows": [[d.get(n, None) for n in names] for d in op["dicts"]], "dicts": True})
+                e = frames[-1]
+        elif k == "rows":
+            frames.append({"names": list(op["fields"]), "rows": [list(r) for r in op["rows"]]})
+            e = frames[-1]
+        elif k in ("append", "reread", "derive"):
+            if frames:
+                f = frames[op["frame"] % len(frames)]
+                if k == "append":
+                    f["rows"].append([op["dict"].get(n, None) for n in f["names"]])
+                    e = f
+                elif k == "reread":
+                    e = f
+                else:
+                    if op["how"] == "slice":
+                        n = op.get("n")
+                        rows = f["rows"][:] if n is None else ([] if n == 0 else f["rows"][0:n])
+                    elif op["how"] == "query":
+                        rows = f["rows"][:]
+                    else:
+                        rows = f["rows"] + f["rows"]
+                    if outs is not None and "rows" in outs[i] and "names" in outs[i]:
+                        rows = outs[i]["rows"]
+                    frames.append({"names": list(f["names"]), "rows": [list(r) for r in rows]})
+                    e = frames[-1]
+        exp.append(None if e is None else {"names": list(e["names"]), "rows": [list(r) for r in e["rows"]]})
+    return exp
+
+
+def oracle_session(case, out):
+    ops, outs = case["ops"], out["ops"]
+    exp = session_expected(ops, outs)
+    for op, o, e in zip(ops, outs, exp):
+        k = op["op"]
+        if k == "ctx":
+            continue
+        if "op_raised" in o:
+            if k in ("rows", "derive"):
+                return None  # not a dictionary operation: the rest of the session has no defined expectation
+            return "%s raised %s" % ({"frame": "DataFrame(dictionaries)", "append": "append(dict)",
+                                      "row": "building a row from a dictionary", "reread": "reading a frame's rows"}[k],
+                                     o["op_raised"])
+        if k == "row":
+            want = [op["dict"].get(f, None) for f in op["fields"]]
+            c = judge_views(op["fields"], want, o, op["probes"], op["default"])
+            if c:
+                return c
+            continue
+        if e is None:
+            continue
+        if k == "frame":
+            if o["names"] != e["names"]:
+                return "columns are not those of the first dictionary"
+            if o["rowcount"] != len(op["dicts"]) or len(o["rows"]) != len(op["dicts"]):
+                return "not exactly one row per dictionary"
+            if any(len(r) != len(e["names"]) for r in o["rows"]):
+                return "a row is not as wide as the column list"
+            if not wire.same(o["rows"], e["rows"]):
+                return "a row does not hold each field's value at that field's position"
+        elif k == "append":
+            if not wire.same(o["rows"], e["rows"]) or o["rowcount"] != len(e["rows"]):
+                return "append(dict) did not add exactly the record's row"
+            c = judge_views(e["names"], e["rows"][-1], o["last"], op.get("probes", []), op.get("default"))
+            if c:
+                return c
+        elif k == "reread":
+            if o["names"] != e["names"] or not wire.same(o["rows"], e["rows"]) or o["rowcount"] != len(e["rows"]):
+                return "a frame no longer holds exactly the rows of its dictionaries (one per dictionary / append, values by field name)"
+    return None
+
+
+# ----------------------------------------------------------------------------- one case, any kind
+
+IMPL = {"row": (impl_row, oracle_row), "frame": (impl_frame, oracle_frame), "append": (impl_append, oracle_append),
+        "ctx": (impl_ctx, lambda c, o: None), "session": (impl_session, oracle_session)}
+
+
+def run_case(case):
+    """(implementation output, failing clause or None).  Never raises for anything the implementation does."""
+    if case["kind"] == "sequence":
+        out, clause = None, None
+        for sub in case["cases"]:
+            out, clause = run_case(sub)
+            if clause is not None:
+                break
+        return out, clause
+    impl, oracle = IMPL[case["kind"]]
+    out = impl(case)
+    return out, oracle(case, out)
+
+
 # ----------------------------------------------------------------------------- model
+
+
+def session_wire(ops):
+    w = []
+    for op in ops:
+        k = op["op"]
+        if k == "ctx":
+            w.append(["ctx"])
+        elif k == "frame":
+            w.append(["frame", op["dicts"]])
+        elif k == "rows":
+            w.append(["rows", op["fields"], op["rows"]])
+        elif k == "append":
+            w.append(["append", op["frame"], op["dict"], op.get("probes", []), op.get("default")])
+        elif k == "row":
+            w.append(["row", op["fields"], op["dict"], op["probes"], op["default"]])
+        elif k == "reread":
+            w.append(["reread", op["frame"]])
+        else:
+            n = op.get("n") if op["how"] == "slice" else None
+            w.append(["derive", op["frame"], op["how"], -1 if n is None else n])
+    return w
 
 
 def model_line(case):
@@ -225,7 +563,11 @@ def model_line(case):
         return "C02 row " + wire.line(case["fields"], case["dict"], case["probes"], case["default"])
     if k == "frame":
         return "C02 frame " + wire.line(case["dicts"])
-    return "C02 append " + wire.line(case["fields"], case["rows"], case["dict"])
+    if k == "append":
+        return "C02 append " + wire.line(case["fields"], case["rows"], case["dict"])
+    if k == "session":
+        return "C02 session " + wire.line(session_wire(case["ops"]))
+    return None
 
 
 def compare_model(case, out, mo):
@@ -234,69 +576,423 @@ def compare_model(case, out, mo):
     m = wire.dec_all(mo[3:])
     k = case["kind"]
     if k == "row":
-        ok = (wire.same(m[0], out["row"]) and wire.same(m[1], out["as_map"]) and wire.same(m[2], out["as_dict"])
-              and wire.same(m[3], out["gets"]))
+        ok = ("row" in out and wire.same(m[0], out["row"]) and wire.same(m[1], out["as_map"]) and wire.same(m[2], out["as_dict"])
+              and wire.same(m[3], out["gets"]) and wire.same(m[4], out["keys"]) and wire.same(m[5], out["values"])
+              and wire.same(m[6], out["as_dict"]))  # the object as_json serialises is the dictionary view
     elif k == "frame":
         if m[0] == "StopIteration":
             ok = out.get("raised") == "StopIteration"
         else:
             ok = "raised" not in out and m[0] == out["names"] and wire.same(m[1], out["rows"])
+    elif k == "append":
+        ok = "setup_raised" in out or ("raised" not in out and wire.same(m[0], out["rows"]))
     else:
-        ok = "raised" not in out and wire.same(m[0], out["rows"])
+        ok = session_matches(case, out, m[0])
     return ok, m
 
 
-IMPL = {"row": (impl_row, oracle_row), "frame": (impl_frame, oracle_frame), "append": (impl_append, oracle_append)}
+def session_matches(case, out, mouts):
+    """The Lean state machine's per-op outputs against the implementation's (derived frames by mirror semantics)."""
+    if len(mouts) != len(case["ops"]):
+        return False
+    for op, o, mo in zip(case["ops"], out["ops"], mouts):
+        k = op["op"]
+        if "op_raised" in o:
+            return k in ("rows", "derive")  # nothing after it is defined; C02 does not judge these two
+        if k == "ctx":
+            ok = mo == ["ctx"]
+        elif o.get("skip"):
+            ok = mo == ["skip"]
+        elif k in ("frame", "rows", "reread", "derive"):
+            ok = mo[0] == "frame" and mo[1] == o["names"] and wire.same(mo[2], o["rows"])
+        elif k == "append":
+            last = o["last"]
+            ok = (mo[0] == "appended" and wire.same(mo[1], o["rows"]) and "row" in last and wire.same(mo[2], last["as_map"])
+                  and wire.same(mo[3], last["as_dict"]) and wire.same(mo[4], last["gets"]))
+        else:
+            ok = (mo[0] == "row" and "row" in o and wire.same(mo[1], o["row"]) and wire.same(mo[2], o["as_map"])
+                  and wire.same(mo[3], o["as_dict"]) and wire.same(mo[4], o["gets"]))
+        if not ok:
+            return False
+    return True
+
+
+_MODEL_IS_SPEC = None
+
+
+def model_is_spec():
+    """True when every statement the extractor lifted from the working tree has the text the proofs were
+    written against: then the assembled model IS the specification (theorems of Props/C02.lean) and a
+    difference from the Python mirror can only be a bug of this harness or of the model."""
+    global _MODEL_IS_SPEC
+    if _MODEL_IS_SPEC is None:
+        try:
+            from ..extract import GEN_DIR
+            from ..extractors import c02 as x
+
+            g = json.load(open(os.path.join(GEN_DIR, "generated.json")))
+            _MODEL_IS_SPEC = all(g.get(k) == v for k, v in x.PINNED.items())
+        except Exception:
+            _MODEL_IS_SPEC = False
+    return _MODEL_IS_SPEC
+
+
+def mirror_check(ctx, case, out, m):
+    """Model vs. the Python mirror of the specification, implementation out of the picture.  With the source
+    statements unchanged a difference is a harness/model bug (exit 2, never a VIOLATION); with changed
+    statements the model follows the code, and a difference from the specification is a correspondence finding."""
+    if case["kind"] != "session":
+        return
+    bad = None
+    exp = session_expected(case["ops"])
+    for op, e, mo in zip(case["ops"], exp, m[0]):
+        if op["op"] in ("frame", "rows", "reread", "derive") and e is not None:
+            if not (mo[0] == "frame" and mo[1] == e["names"] and wire.same(mo[2], e["rows"])):
+                bad = (op, mo, e)
+        elif op["op"] == "append" and e is not None:
+            if not (mo[0] == "appended" and wire.same(mo[1], e["rows"])):
+                bad = (op, mo, e)
+        elif op["op"] == "row":
+            want = [op["dict"].get(f, None) for f in op["fields"]]
+            if not (mo[0] == "row" and wire.same(mo[1], want)):
+                bad = (op, mo, want)
+        if bad:
+            break
+    if bad is None:
+        return
+    if model_is_spec():
+        raise InfraError("C02 session model differs from the specification mirror on %r: %r vs %r" % bad)
+    ctx.disagree(case, out, m, what="the model assembled from the changed source statements differs from the specification")
+
+
+def text_dict(d):
+    return isinstance(d, dict) and all(isinstance(x, str) for x in d)
+
+
+def valid_op(op):
+    k = op["op"]
+    if k == "ctx":
+        return op["what"] in CTX_KINDS and all(isinstance(f, str) for f in op["fields"])
+    if k == "frame":
+        return isinstance(op["dicts"], list) and all(text_dict(d) for d in op["dicts"])
+    if k == "rows":
+        w = len(op["fields"])
+        return all(isinstance(f, str) for f in op["fields"]) and all(isinstance(r, list) and len(r) == w for r in op["rows"])
+    if k == "append":
+        return isinstance(op["frame"], int) and op["frame"] >= 0 and text_dict(op["dict"]) and all(
+            isinstance(p, str) for p in op.get("probes", []))
+    if k == "row":
+        return (all(isinstance(f, str) for f in op["fields"]) and text_dict(op["dict"])
+                and all(isinstance(p, str) for p in op["probes"]))
+    if k == "reread":
+        return isinstance(op["frame"], int) and op["frame"] >= 0
+    if k == "derive":
+        return (isinstance(op["frame"], int) and op["frame"] >= 0 and op["how"] in ("slice", "query", "add")
+                and (op.get("n") is None or (isinstance(op["n"], int) and op["n"] >= 0)))
+    return False
 
 
 def valid_case(c):
     try:
         k = c["kind"]
         if k == "row":
-            return (all(isinstance(f, str) for f in c["fields"]) and isinstance(c["dict"], dict)
-                    and all(isinstance(p, str) for p in c["probes"]) and all(isinstance(x, str) for x in c["dict"]))
+            return (all(isinstance(f, str) for f in c["fields"]) and text_dict(c["dict"])
+                    and all(isinstance(p, str) for p in c["probes"]))
         if k == "frame":
-            return all(isinstance(d, dict) and all(isinstance(x, str) for x in d) for d in c["dicts"]) and (
-                c.get("append") is None or isinstance(c["append"], dict))
+            return all(text_dict(d) for d in c["dicts"]) and (c.get("append") is None or text_dict(c["append"]))
         if k == "append":
             w = len(c["fields"])
-            if c["schema_bound"] and (len(set(c["fields"])) != w or set(c["dict"]) != set(c["fields"])):
+            bound = c["schema_bound"] or c.get("via") == "arrow"
+            if bound and (len(set(c["fields"])) != w or set(c["dict"]) != set(c["fields"])):
                 return False
-            return all(isinstance(f, str) for f in c["fields"]) and all(len(r) == w for r in c["rows"]) and isinstance(c["dict"], dict)
+            if c.get("via") == "arrow" and not (
+                all(type(x) is int and abs(x) < 2**62 for r in c["rows"] for x in r)
+                and all(type(x) is int and abs(x) < 2**62 for x in c["dict"].values())):
+                return False
+            return all(isinstance(f, str) for f in c["fields"]) and all(len(r) == w for r in c["rows"]) and text_dict(c["dict"])
+        if k == "ctx":
+            return c["what"] in CTX_KINDS and all(isinstance(f, str) for f in c["fields"])
+        if k == "session":
+            return isinstance(c["ops"], list) and all(valid_op(op) for op in c["ops"])
+        if k == "sequence":
+            return len(c["cases"]) >= 1 and all(x["kind"] != "sequence" and valid_case(x) for x in c["cases"])
     except Exception:
         return False
     return False
 
 
-def evaluate(ctx, cases):
-    mouts = ctx.model.batch([model_line(c) for c in cases])
-    for c, mo in zip(cases, mouts):
-        impl, oracle = IMPL[c["kind"]]
-        out = impl(c)
-        clause = oracle(c, out)
-        nontrivial = bool(c.get("fields") or c.get("dicts"))
-        ctx.case(c, nontrivial)
-        ctx.hit("kind:" + c["kind"])
-        if c["kind"] == "row":
-            ctx.hit("fields:%d" % min(len(c["fields"]), 6))
-            ctx.hit("dup-fields" if len(set(c["fields"])) != len(c["fields"]) else "nodup-fields")
-            ctx.hit("extra-keys" if set(c["dict"]) - set(c["fields"]) else "no-extra")
-            ctx.hit("absent-fields" if set(c["fields"]) - set(c["dict"]) else "all-present")
-        if clause is not None:
-            def still(c2):
-                if not valid_case(c2):
-                    return False
-                try:
-                    return oracle(c2, impl(c2)) == clause
-                except Exception:
-                    return False
+# ----------------------------------------------------------------------------- pristine interpreter
 
-            c_min = c if ctx.replaying else shrink(c, still, budget=300)
-            ctx.fail(c_min, clause, impl=impl(c_min))
+
+class Isolate:
+    """Client of harness/c02_worker.py: evaluates a list of cases, in order, in a new forked interpreter."""
+
+    def __init__(self):
+        self.p = None
+        self.calls = 0
+        self.failed = None
+
+    def _start(self):
+        env = dict(os.environ)
+        env["PYTHONPATH"] = core.VERIF + (os.pathsep + env["PYTHONPATH"] if env.get("PYTHONPATH") else "")
+        env["ORSO_REPO"] = core.REPO
+        self.p = subprocess.Popen([sys.executable, "-m", "harness.c02_worker"], stdin=subprocess.PIPE,
+                                  stdout=subprocess.PIPE, stderr=subprocess.DEVNULL, cwd=core.VERIF, env=env)
+        self.buf = b""
+        r = self._readline(120)
+        if not r or not r.get("ready"):
+            raise RuntimeError("worker did not start")
+
+    def _readline(self, timeout):
+        fd = self.p.stdout.fileno()
+        end = time.time() + timeout
+        while b"\n" not in self.buf:
+            left = end - time.time()
+            if left <= 0:
+                return None
+            rd, _, _ = select.select([fd], [], [], left)
+            if not rd:
+                return None
+            chunk = os.read(fd, 1 << 16)
+            if not chunk:
+                return None
+            self.buf += chunk
+        line, self.buf = self.buf.split(b"\n", 1)
+        return json.loads(line)
+
+    def close(self):
+        if self.p is not None:
+            try:
+                self.p.kill()
+                self.p.wait(5)
+            except Exception:
+                pass
+            self.p = None
+
+    def run(self, cases, timeout=90):
+        """List of {"clause", "out"} per case, or None when the pristine interpreter is not available."""
+        if self.failed:
+            return None
+        for attempt in (0, 1):
+            try:
+                if self.p is None or self.p.poll() is not None:
+                    self._start()
+                self.p.stdin.write((json.dumps({"cases": [core._jsonable(c) for c in cases]}, default=repr) + "\n").encode())
+                self.p.stdin.flush()
+                r = self._readline(timeout)
+                self.calls += 1
+                if r is not None and "results" in r:
+                    return r["results"]
+                self.close()
+                if r is not None and "error" in r and attempt == 1:
+                    self.failed = r["error"]
+            except Exception as e:
+                self.close()
+                if attempt == 1:
+                    self.failed = "%s: %s" % (type(e).__name__, e)
+        self.failed = self.failed or "no answer from the pristine interpreter"
+        return None
+
+
+ISO = Isolate()
+
+
+def _drop_key_variants(x):
+    """Structural candidates core.shrink does not make: a data dictionary with one key removed."""
+    if isinstance(x, list):
+        for i, v in enumerate(x):
+            for c in _drop_key_variants(v):
+                yield x[:i] + [c] + x[i + 1:]
+    elif isinstance(x, dict):
+        structural = "kind" in x or "op" in x
+        for k in list(x):
+            if structural and k not in ("dict", "dicts", "append", "ops", "cases"):
+                continue
+            if not structural:
+                y = dict(x)
+                del y[k]
+                yield y
+            for c in _drop_key_variants(x[k]):
+                y = dict(x)
+                y[k] = c
+                yield y
+        if structural:
+            for k in ("mapping", "iterator"):
+                if x.get(k):
+                    y = dict(x)
+                    del y[k]
+                    yield y
+
+
+def reduce_case(case, still, budget=250):
+    """core.shrink, then removal of dictionary keys / optional flags, to a fixpoint (bounded)."""
+    cur = shrink(case, still, budget=budget)
+    for _ in range(6):
+        progress = False
+        tries = 0
+        for c in _drop_key_variants(cur):
+            tries += 1
+            if tries > budget:
+                break
+            try:
+                if still(c):
+                    cur, progress = c, True
+                    break
+            except Exception:
+                continue
+        if not progress:
+            break
+    return shrink(cur, still, budget=60)
+
+HISTORY = []  # every case evaluated in this interpreter so far, in order
+
+
+def report(ctx, case, clause, out):
+    """A case failed in this interpreter: confirm in a pristine one, find what has to come first, reduce."""
+    if any(v.get("sig") == clause for v in ctx.violations):
+        ctx.hit("violation-dup:" + clause)
+        return
+    if ctx.replaying:
+        ctx.fail(case, clause, impl=out)
+        return
+    deadline = time.time() + 30
+
+    def fails(seq):
+        r = ISO.run(seq)
+        return r is not None and r[-1]["clause"] == clause
+
+    def last_out(seq):
+        r = ISO.run(seq)
+        return r[-1]["out"] if r else None
+
+    first = ISO.run([case])
+    if first is None:
+        ctx.note("isolation_unavailable", ISO.failed)
+        still = lambda c2: valid_case(c2) and run_case(c2)[1] == clause  # noqa: E731
+        c_min = reduce_case(case, still, budget=300)
+        ctx.fail(c_min, clause, impl=run_case(c_min)[0], detail="reduced in the checking interpreter (no pristine interpreter available)")
+        return
+    if first[-1]["clause"] == clause:
+        ctx.hit("failure:self-contained")
+        c_min = reduce_case(case, lambda c2: valid_case(c2) and time.time() < deadline and fails([c2]), budget=250)
+        ctx.fail(c_min, clause, impl=last_out([c_min]), detail="fails as the first operation of a new interpreter")
+        return
+    # history dependent: which earlier operations of this interpreter does it need?
+    ctx.hit("failure:needs-earlier-operations")
+    hist = list(HISTORY)
+    prefix = None
+    for k in (4, 32, 256, 2048, len(hist)):
+        cand = hist[-k:] if k else []
+        if fails(cand + [case]):
+            prefix = cand
+            break
+        if k >= len(hist):
+            break
+    if prefix is None:
+        ctx.fail(case, clause, impl=out,
+                 detail="fails in the checking interpreter after %d earlier cases; not reproduced by replaying them in a new one" % len(hist))
+        return
+    # ddmin on the prefix
+    n = 2
+    while len(prefix) >= 2 and time.time() < deadline:
+        size = max(1, len(prefix) // n)
+        chunks = [prefix[i:i + size] for i in range(0, len(prefix), size)]
+        reduced = False
+        for ch in chunks:  # a single chunk suffices?
+            if len(ch) < len(prefix) and fails(ch + [case]):
+                prefix, n, reduced = ch, 2, True
+                break
+        if not reduced:
+            for i in range(len(chunks)):  # or the complement of one
+                comp = [x for j, chx in enumerate(chunks) if j != i for x in chx]
+                if len(comp) < len(prefix) and fails(comp + [case]):
+                    prefix, n, reduced = comp, max(n - 1, 2), True
+                    break
+        if not reduced:
+            if size == 1:
+                break
+            n = min(len(prefix), n * 2)
+    seq = {"kind": "sequence", "cases": prefix + [case]}
+    seq = reduce_case(seq, lambda c2: valid_case(c2) and time.time() < deadline + 20 and fails(c2["cases"]), budget=250)
+    ctx.fail(seq, clause, impl=last_out(seq["cases"]),
+             detail="the last operation fails only after the earlier ones of this sequence (same interpreter); alone it passes")
+
+
+# ----------------------------------------------------------------------------- evaluation
+
+
+def classify(ctx, c):
+    k = c["kind"]
+    ctx.hit("kind:" + k)
+    if k == "row":
+        ctx.hit("fields:%s" % (len(c["fields"]) if len(c["fields"]) <= 6 else "7-16" if len(c["fields"]) < 17 else "17+"))
+        ctx.hit("dup-fields" if len(set(c["fields"])) != len(c["fields"]) else "nodup-fields")
+        ctx.hit("extra-keys" if set(c["dict"]) - set(c["fields"]) else "no-extra")
+        ctx.hit("absent-fields" if set(c["fields"]) - set(c["dict"]) else "all-present")
+        ctx.hit("mapping:" + (c.get("mapping") or "dict"))
+        seen = SEEN_CTX.get(tuple(c["fields"]))
+        if seen:
+            ctx.hit("row-after-other-feature-same-fields")
+    elif k == "ctx":
+        ctx.hit("ctx:" + c["what"])
+        SEEN_CTX.setdefault(tuple(c["fields"]), set()).add(c["what"])
+    elif k == "append":
+        ctx.hit("append-via:" + (c.get("via") or ("schema" if c["schema_bound"] else "names")))
+    elif k == "session":
+        made, dict_after = {}, False
+        for op in c["ops"]:
+            ctx.hit("session-op:" + op["op"] + (":" + op["what"] if op["op"] == "ctx" else ""))
+            if op["op"] == "ctx" and op["what"] in ("arrow", "tuples"):
+                made[tuple(op["fields"])] = True
+                made[frozenset(op["fields"])] = True
+            elif op["op"] == "row":
+                if tuple(op["fields"]) in made:
+                    ctx.hit("session:dict-row-after-tuples-only-class-same-fields")
+                elif frozenset(op["fields"]) in made:
+                    ctx.hit("session:dict-row-after-tuples-only-class-permuted-fields")
+        ctx.hit("session-ops:%d" % min(len(c["ops"]), 12))
+
+
+SEEN_CTX = {}
+
+
+def evaluate(ctx, cases):
+    lines = [(i, model_line(c)) for i, c in enumerate(cases)]
+    lines = [(i, l) for i, l in lines if l is not None]
+    mouts = dict(zip([i for i, _ in lines], ctx.model.batch([l for _, l in lines])))
+    for i, c in enumerate(cases):
+        out, clause = run_case(c)
+        nontrivial = bool(c.get("fields") or c.get("dicts") or c.get("ops") or c.get("cases"))
+        ctx.case(c, nontrivial)
+        classify(ctx, c)
+        if clause is not None:
+            report(ctx, c, clause, out)
+            HISTORY.append(c)
             continue
-        ok, m = compare_model(c, out, mo)
-        if not ok:
-            ctx.disagree(c, out, m)
+        HISTORY.append(c)
+        if i in mouts:
+            ok, m = compare_model(c, out, mouts[i])
+            mirror_check(ctx, c, out, m)
+            if not ok:
+                ctx.disagree(c, out, m)
+
+
+def evaluate_cold(ctx, cases):
+    """Each case as the very first operation of a new interpreter (first-use behaviour)."""
+    for c in cases:
+        r = ISO.run([c])
+        if r is None:
+            ctx.note("isolation_unavailable", ISO.failed)
+            return
+        ctx.case(c, True)
+        ctx.hit("cold:" + c["kind"])
+        if r[-1]["clause"] is not None:
+            clause = r[-1]["clause"]
+            if any(v.get("sig") == clause for v in ctx.violations):
+                continue
+            c_min = reduce_case(c, lambda c2: valid_case(c2) and (ISO.run([c2]) or [{"clause": None}])[-1]["clause"] == clause, budget=200)
+            rr = ISO.run([c_min])
+            ctx.fail(c_min, clause, impl=rr[-1]["out"] if rr else None, detail="fails as the first operation of a new interpreter")
 
 
 # ----------------------------------------------------------------------------- generators
@@ -309,22 +1005,39 @@ def gen_dict(rng, fields, pool=NAMES):
     return {k: gen_pyval(rng, 2) for k in keys}
 
 
-def gen_row_case(rng):
+def gen_fields(rng):
     n = rng.choice([0, 1, 2, 3, 4, 6])
-    if rng.random() < 0.25:
-        fields = [rng.choice(NAMES[:4]) for _ in range(n)]  # duplicates likely
-    else:
-        fields = rng.sample(NAMES, min(n, len(NAMES)))
-    if rng.random() < 0.1:
-        fields = [gen_text(rng, 6) for _ in range(n)]
+    r = rng.random()
+    if r < 0.02:
+        return ["f%d" % i for i in range(rng.choice([17, 64, 255, 256, 300]))]  # wide rows
+    if r < 0.25:
+        return [rng.choice(SMALL) for _ in range(n)]  # duplicates likely
+    if r < 0.5:
+        return rng.sample(SMALL, min(n, 4))  # small pool: the same list comes back often
+    if r < 0.6:
+        return [gen_text(rng, 6) for _ in range(n)]
+    return rng.sample(NAMES, min(n, len(NAMES)))
+
+
+def gen_mapping(rng):
+    r = rng.random()
+    return None if r < 0.8 else "ordered" if r < 0.9 else "default"
+
+
+def gen_row_case(rng):
+    fields = gen_fields(rng)
     d = gen_dict(rng, fields)
     probes = list(dict.fromkeys(fields))[:4] + rng.sample(NAMES, 2) + ["absent"]
-    return {"kind": "row", "fields": fields, "dict": d, "probes": probes, "default": rng.choice([None, 0, "dflt", [1]])}
+    c = {"kind": "row", "fields": fields, "dict": d, "probes": probes, "default": rng.choice([None, 0, "dflt", [1]])}
+    m = gen_mapping(rng)
+    if m:
+        c["mapping"] = m
+    return c
 
 
 def gen_frame_case(rng):
     n = rng.choice([0, 1, 1, 2, 3, 4, 6])
-    first_keys = rng.sample(NAMES, rng.randint(0, 4))
+    first_keys = rng.sample(NAMES, rng.randint(0, 4)) if rng.random() < 0.6 else rng.sample(SMALL, rng.randint(0, 4))
     dicts = []
     for i in range(n):
         if i == 0:
@@ -334,21 +1047,100 @@ def gen_frame_case(rng):
     c = {"kind": "frame", "dicts": dicts, "iterator": rng.random() < 0.4}
     if dicts and rng.random() < 0.5:
         c["append"] = gen_dict(rng, first_keys)
+        m = gen_mapping(rng)
+        if m:
+            c["mapping"] = m
     return c
 
 
 def gen_append_case(rng):
     n = rng.choice([0, 1, 2, 3, 4])
-    fields = rng.sample(NAMES, n)
+    fields = rng.sample(NAMES, n) if rng.random() < 0.5 else rng.sample(SMALL, min(n, 4))
+    r = rng.random()
+    if r < 0.2 and fields:
+        rows = [[rng.randint(-5, 5) for _ in fields] for _ in range(rng.randint(1, 3))]
+        keys = list(fields)
+        rng.shuffle(keys)
+        return {"kind": "append", "fields": fields, "rows": rows, "dict": {k: rng.randint(-9, 9) for k in keys},
+                "schema_bound": True, "via": "arrow"}
     rows = [[gen_pyval(rng, 1) for _ in fields] for _ in range(rng.randint(0, 3))]
-    bound = rng.random() < 0.5
+    bound = r < 0.6
     if bound:
         keys = list(fields)
         rng.shuffle(keys)
         d = {k: gen_pyval(rng, 2) for k in keys}
     else:
         d = gen_dict(rng, fields)
-    return {"kind": "append", "fields": fields, "rows": rows, "dict": d, "schema_bound": bound}
+    c = {"kind": "append", "fields": fields, "rows": rows, "dict": d, "schema_bound": bound}
+    m = gen_mapping(rng)
+    if m and not bound:
+        c["mapping"] = m
+    return c
+
+
+def gen_ctx_case(rng, fields=None):
+    if fields is None:
+        fields = gen_fields(rng)
+    return {"kind": "ctx", "what": rng.choice(CTX_KINDS), "fields": list(fields)}
+
+
+def variants(rng, base):
+    """The same field list again, permuted, a sub-list, a super-list, with a repeated name."""
+    r = rng.random()
+    if r < 0.4 or not base:
+        return list(base)
+    if r < 0.55:
+        p = list(base)
+        rng.shuffle(p)
+        return p
+    if r < 0.7:
+        return list(base[: rng.randint(0, len(base))])
+    if r < 0.85:
+        return list(base) + [rng.choice([n for n in NAMES if n not in base])]
+    return list(base) + [rng.choice(base)]
+
+
+def gen_session_case(rng):
+    base = rng.sample(SMALL if rng.random() < 0.5 else NAMES, rng.randint(1, 4))
+    ops = []
+    n = rng.choice([2, 3, 4, 6, 8, 12])
+    for _ in range(n):
+        r = rng.random()
+        if r < 0.22:
+            ops.append({"op": "ctx", "what": rng.choice(CTX_KINDS), "fields": variants(rng, base)})
+        elif r < 0.37:
+            fk = variants(rng, base)
+            fk = list(dict.fromkeys(fk))
+            k = rng.choice([0, 1, 1, 2, 3])
+            dicts = [{f: gen_pyval(rng, 1) for f in fk}] + [gen_dict(rng, fk) for _ in range(max(k - 1, 0))] if k else []
+            ops.append({"op": "frame", "dicts": dicts, "iterator": rng.random() < 0.4})
+        elif r < 0.45:
+            f = variants(rng, base)
+            ops.append({"op": "rows", "fields": f, "rows": [[gen_pyval(rng, 1) for _ in f] for _ in range(rng.randint(0, 2))]})
+        elif r < 0.65:
+            op = {"op": "append", "frame": rng.randint(0, 5), "dict": gen_dict(rng, variants(rng, base)),
+                  "probes": list(base[:2]) + ["absent"], "default": rng.choice([None, 0, "dflt"])}
+            m = gen_mapping(rng)
+            if m:
+                op["mapping"] = m
+            ops.append(op)
+        elif r < 0.83:
+            f = variants(rng, base)
+            op = {"op": "row", "fields": f, "dict": gen_dict(rng, f), "probes": list(dict.fromkeys(f))[:3] + ["absent"],
+                  "default": rng.choice([None, 0, "dflt"])}
+            m = gen_mapping(rng)
+            if m:
+                op["mapping"] = m
+            ops.append(op)
+        elif r < 0.91:
+            ops.append({"op": "reread", "frame": rng.randint(0, 5)})
+        else:
+            how = rng.choice(["slice", "slice", "query", "add"])
+            op = {"op": "derive", "frame": rng.randint(0, 5), "how": how}
+            if how == "slice" and rng.random() < 0.6:
+                op["n"] = rng.randint(0, 3)
+            ops.append(op)
+    return {"kind": "session", "ops": ops}
 
 
 def exhaustive_small():
@@ -366,28 +1158,79 @@ def exhaustive_small():
                             break
 
 
+def exhaustive_sessions():
+    """Every ordered pair (other feature for field list F1, dictionary operation for field list F2) with F1, F2
+    over the field lists of length <= 2 over {a,b} and their permutations / sub- / super-lists."""
+    lists = [list(p) for n in range(0, 3) for p in itertools.product("ab", repeat=n)]
+    d = {"b": 2, "a": 1, "z": 9}
+    for what in CTX_KINDS:
+        for f1 in lists:
+            for f2 in lists:
+                ops = [{"op": "ctx", "what": what, "fields": f1},
+                       {"op": "row", "fields": f2, "dict": d, "probes": ["a", "b", "q"], "default": "dflt"},
+                       {"op": "rows", "fields": f2, "rows": []},
+                       {"op": "append", "frame": 0, "dict": d, "probes": ["a"], "default": None}]
+                if len(set(f2)) == len(f2) and f2:
+                    ops += [{"op": "frame", "dicts": [{k: 0 for k in f2}]}, {"op": "append", "frame": 1, "dict": d},
+                            {"op": "reread", "frame": 1}]
+                yield {"kind": "session", "ops": ops}
+
+
+def gen_any(rng):
+    r = rng.random()
+    if r < 0.40:
+        return gen_row_case(rng)
+    if r < 0.58:
+        return gen_frame_case(rng)
+    if r < 0.72:
+        return gen_append_case(rng)
+    if r < 0.84:
+        return gen_ctx_case(rng)
+    return gen_session_case(rng)
+
+
 def run(ctx):
-    ctx.note("rule", "Row(dict) / DataFrame(dicts) / append(dict) cases; non-trivial = at least one field or dictionary; distinct by canonical JSON")
-    cases = list(exhaustive_small())
-    for i in range(0, len(cases), 4000):
-        evaluate(ctx, cases[i : i + 4000])
-    ctx.note("exhaustive_scope", "all field lists of length <= 3 over 3 names (duplicates included) x all dictionaries over subsets of 4 keys in two insertion orders (%d cases); then random" % len(cases))
-    n = ctx.scale(6000, 80000)
-    done = 0
-    while done < n and ctx.time_left() > 5:
-        batch = []
-        for i in range(2000):
-            r = ctx.rng.random()
-            batch.append(gen_row_case(ctx.rng) if r < 0.55 else gen_frame_case(ctx.rng) if r < 0.8 else gen_append_case(ctx.rng))
-        evaluate(ctx, batch)
-        done += len(batch)
+    ctx.note("rule", "Row(dict) / DataFrame(dicts) / append(dict) cases, sessions of such operations on several live frames, "
+             "and other row-class-creating features in between, all in one interpreter; non-trivial = at least one field, "
+             "dictionary or operation; distinct by canonical JSON")
+    try:
+        cases = list(exhaustive_small())
+        for i in range(0, len(cases), 4000):
+            evaluate(ctx, cases[i: i + 4000])
+        # the same scope again after every other feature has made its row classes for exactly these field lists
+        warm = [{"kind": "ctx", "what": w, "fields": list(f)} for n in range(0, 4) for f in itertools.product("abc", repeat=n)
+                for w in CTX_KINDS]
+        evaluate(ctx, warm)
+        for i in range(0, len(cases), 4000):
+            evaluate(ctx, cases[i: i + 4000])
+        sess = list(exhaustive_sessions())
+        evaluate(ctx, sess)
+        ctx.note("exhaustive_scope", "all field lists of length <= 3 over 3 names (duplicates included) x all dictionaries over "
+                 "subsets of 4 keys in two insertion orders (%d cases), once in a fresh interpreter state and once after each of %d "
+                 "other features created its row class for every one of those field lists; %d sessions: every (other feature, "
+                 "field list) followed by every dictionary operation for every field list of length <= 2 over 2 names; then random"
+                 % (len(cases), len(CTX_KINDS), len(sess)))
+        cold = [gen_any(ctx.rng) for _ in range(ctx.scale(60, 600))]
+        evaluate_cold(ctx, [c for c in cold if c["kind"] != "ctx"])
+        n = ctx.scale(16000, 160000)
+        done = 0
+        while done < n and ctx.time_left() > 5:
+            batch = [gen_any(ctx.rng) for _ in range(2000)]
+            evaluate(ctx, batch)
+            done += len(batch)
+        ctx.note("isolated_interpreter_runs", ISO.calls)
+    finally:
+        ISO.close()
 
 
 def intensify(ctx):
-    for _ in range(5):
-        evaluate(ctx, [gen_row_case(ctx.rng) for _ in range(2000)] + [gen_frame_case(ctx.rng) for _ in range(1000)])
-        if ctx.violations:
-            return
+    try:
+        for _ in range(5):
+            evaluate(ctx, [gen_any(ctx.rng) for _ in range(3000)])
+            if ctx.violations:
+                return
+    finally:
+        ISO.close()
 
 
 def replay(ctx, case):
